@@ -121,6 +121,7 @@ func cmdRun(args []string) int {
 	dedup := fs.String("dedup", "", "1 = merge identical states reached on different schedules (canonical state digest; measured slower than re-exploring on the current harnesses)")
 	preempt := fs.Int("preempt", -1, "")
 	timeout := fs.Int("timeout-ms", 0, "")
+	wallS := fs.Int("wall-s", 0, "give up exploring after this many seconds (inconclusive unless a counterexample was found)")
 	grace := fs.Int("grace-s", 0, "stop exploring this many seconds after the first counterexample that is not a listed finding (0: explore everything)")
 	solver := fs.String("solver", "z3-new -in", "")
 	out := fs.String("o", "", "output json")
@@ -167,6 +168,7 @@ func cmdRun(args []string) int {
 	}
 	opt.Preempt = *preempt
 	opt.GraceAfterFinding = time.Duration(*grace) * time.Second
+	opt.WallLimit = time.Duration(*wallS) * time.Second
 	opt.Dedup = *dedup == "1"
 	if *paramsJ != "" && *paramsJ != "null" {
 		json.Unmarshal([]byte(*paramsJ), &opt.Params)
